@@ -156,7 +156,7 @@ def sfRest {κ : Type} (env : Env κ) (inp : Bytes) (sd : StateDef) (pre : StepR
       let ch := inp[m.c.nextPos]?
       dispatch env inp ch sd.arms { m with c := { m.c with nextPos := m.c.nextPos + 1 } }
 
-theorem stateFn_eq {κ : Type} (env : Env κ) (inp : Bytes) (m : M κ) :
+theorem stateFn_split {κ : Type} (env : Env κ) (inp : Bytes) (m : M κ) :
     stateFn env inp m =
       match env.tbl.state? m.c.state with
       | none => (m, some (.err (.panic "unknown state")))
@@ -507,7 +507,7 @@ theorem sfRest_cong (h : C.Ok env₁ env₂ inp) (sd : StateDef) (ha : ArmsCheck
 theorem stateFn_cong (h : C.Ok env₁ env₂ inp) (ht : EmitsChecked env₁.tbl = true)
     (m₁ : M κ₁) (m₂ : M κ₂) (hm : C.MR m₁ m₂) :
     C.Out (stateFn env₁ inp m₁) (stateFn env₂ inp m₂) := by
-  rw [stateFn_eq, stateFn_eq, ← h.tbl, ← hm.1]
+  rw [stateFn_split, stateFn_split, ← h.tbl, ← hm.1]
   cases hsd : env₁.tbl.state? m₁.c.state with
   | none => exact .inr ⟨hm, rfl, h.good_panic _⟩
   | some sd =>
